@@ -19,7 +19,11 @@ META = {
             "writer's recursive key sorting (C02_roundtrip); base64 data reads back (proved, no hypothesis); re-indentation is the "
             "identity exactly when no lib string or key holds a line break (or the indent width is 0); notes survive "
             "exactly when trimmed and non-empty; witnesses refute the full-strength statements. Every run compares, for generated glyphs x write options, the bytes norad wrote "
-            "(parsed by Python's expat) with the model's tree, and parse_raw of those bytes with the model's re-read.",
+            "(parsed by Python's expat) with the model's tree, and parse_raw of those bytes with the model's re-read. "
+            "The writer keeps no state between calls (C02_encode_history_independent, by construction in the model): "
+            "the run ties this to the code with write histories - sequences of encode_xml / Glyph::save on one thread, "
+            "including every way a write fails (a UID value reaching the plist writer, C02_encode_fails_iff_uid_written; "
+            "a user public.objectLibs key on save) - each write compared with the same write on a fresh thread and with the model.",
     "note": "Trusted: Coq kernel + VM; the hand-written models (tied by the differential run); byte-level rendering and "
             "escaping by quick-xml / plist (validated through expat on every case); std's number formatting and "
             "parsing (Section hypotheses, validated on every value of every case).",
@@ -146,10 +150,22 @@ def load_cases(out):
     cf = os.path.join(out, "cases_corpus.jsonl")
     if os.path.exists(cf):
         rows += [json.loads(ln) for ln in open(cf) if ln.strip()]
-    fs = [p for p in glob.glob(os.path.join(out, "cases_*.jsonl")) if not p.endswith("corpus.jsonl")]
+    hs = glob.glob(os.path.join(out, "cases_hist*.jsonl"))
+    for f in sorted(hs, key=lambda p: int(p.split("_hist")[-1].split(".")[0])):
+        rows += [json.loads(ln) for ln in open(f) if ln.strip()]
+    fs = [p for p in glob.glob(os.path.join(out, "cases_*.jsonl")) if not p.endswith("corpus.jsonl") and p not in hs]
     for f in sorted(fs, key=lambda p: int(p.split("_")[-1].split(".")[0])):
         rows += [json.loads(ln) for ln in open(f) if ln.strip()]
     return rows
+
+
+def enc_expected(enc):
+    """the model's outcome for a write that did not succeed: [1, code] for the errors the model has"""
+    if enc.startswith("Err Plist("):
+        return [1, 42]
+    if enc.startswith("Err PreexistingPublicObjectLibsKey"):
+        return [1, 43]
+    return [7]
 
 
 def run(ctx, known, built):
@@ -174,6 +190,18 @@ def run(ctx, known, built):
         hist[key] = hist.get(key, 0) + 1
         rep = {"id": r["id"], "options": r["opts"], "bytes_hex": r["bytes"], "verdict": r["verdict"], "field": r["field"],
                "classes": r["classes"], "glif": bytes.fromhex(r["bytes"]).decode("utf-8", "replace")}
+        if r.get("hist"):
+            rep["history"] = r["hist"]
+            rep["seed"] = ctx.seed
+            hk = "history item/%s/%s" % (r["hist"]["op"], "Ok" if r["enc"] == "Ok" else r["enc"].split("(")[0])
+            hist[hk] = hist.get(hk, 0) + 1
+        if r.get("hist_diff"):
+            rep["demand"] = ("a write gives the same bytes (or the same error) whatever was written before on the thread: "
+                             "item %d of history %d differs from the same write on a fresh thread"
+                             % (r["hist"]["position"], r["hist"]["history"]))
+            rep["difference"] = r["hist_diff"][:4000]
+            ctx.violations.append(rep)
+            continue
         if r.get("l1_fail"):
             ctx.disagreements.append({"what": "library hypothesis of the theorems fails on a value of this case",
                                       "detail": r["l1_fail"], "id": r["id"]})
@@ -230,7 +258,7 @@ def run(ctx, known, built):
                     exp = None
                 r["_tree"] = tree if r["enc"] == "Ok" else None
                 flags = [int("F3" in r["classes"])]
-                items.append((r["case"], packed([tree]) if r["enc"] == "Ok" else packed([[7]]), r["reparse"], flags))
+                items.append((r["case"], packed([tree]) if r["enc"] == "Ok" else packed([enc_expected(r["enc"])]), r["reparse"], flags))
             f.write(";\n".join("(%s,%s)" % (c, packed_pair(t, rp, fl)) for (c, t, rp, fl) in items))
             f.write("].\nEval vm_compute in mismatches_packed run_c02 cases.\n")
         files.append(vf)
@@ -265,7 +293,10 @@ def run(ctx, known, built):
         "rule": "glyph values built through the public API (all fields, legal contours, identifiers, object libs, libs "
                 "with every plist type, strings with XML metacharacters / blanks / line breaks / non-BMP, numbers from a "
                 "boundary set) x two write-option sets each (indent char, width 0..8, quote style); one glyph in 12 breaks "
-                "a validity rule (model comparison only). Non-trivial = distinct valid glyph x options whose bytes were "
+                "a validity rule (model comparison only); plus write histories (3..24 writes on one thread each: valid glyphs, "
+                "glyphs with a UID in the glyph lib / an object lib / an unwritten place, user public.objectLibs, "
+                "Glyph::save, failing reads in between), every write compared with the same write on a fresh thread. "
+                "Non-trivial = distinct valid glyph x options whose bytes were "
                 "read back.",
         "exhaustive": False,
         "input_distribution": hist,
@@ -296,6 +327,21 @@ def packed_pair(tree_packed, reparse_packed, flags=(0,)):
 def replay(ctx, path):
     d = json.load(open(path))
     inp = d.get("input") or (d.get("disagreeing_cases") or [{}])[0]
+    if inp.get("history"):
+        from driver import sh
+        h = inp["history"]
+        print("write history %d (seed %s): %d writes on one thread; the violation is at item %d" %
+              (h["history"], inp.get("seed"), len(h["items"]), h["position"]))
+        for i, t in enumerate(h["items"]):
+            print("  %d. %s" % (i, t))
+        tmp = os.path.join(ctx.scratch, "replay.json")
+        json.dump({"history": h["history"], "seed": inp.get("seed", 1)}, open(tmp, "w"))
+        rc, o = sh([ctx.harness, "c02", "--replay", tmp, "--out", ctx.scratch])
+        print("re-running the history:\n" + o[:6000])
+        for k in ("demand", "difference", "verdict"):
+            if k in inp:
+                print("%s: %s" % (k, inp[k]))
+        return 0
     hx = inp.get("bytes_hex")
     if hx is None:
         print("replay file carries no document (kind=%s): %s" % (d.get("kind"), json.dumps(d)[:600]))
